@@ -345,3 +345,7 @@ def run(pm, ctx):
     run_decisions(pm, ctx, 'C11-RD', OWN['C11'])
     from .. import exprdrift
     exprdrift.run(pm, ctx, 'C11-RE', OWN['C11'])
+    from ..conddrift import run_calls
+    run_calls(pm, ctx, 'C11-RC', OWN['C11'])
+    from .. import memo
+    memo.run(pm, ctx, 'C11-MK', OWN['C11'])
